@@ -75,7 +75,7 @@ def validate_bytesio(rnd, n=200):
   for _ in range(n):
     a = io.BytesIO(); b = SymBytesIO()
     for _ in range(rnd.randrange(1, 8)):
-      op = rnd.randrange(5)
+      op = rnd.randrange(6)
       if op == 0:
         d = bytes(rnd.randrange(256) for _ in range(rnd.randrange(0, 6))); ra = a.write(d); rb = b.write(d)
       elif op == 1:
@@ -83,6 +83,8 @@ def validate_bytesio(rnd, n=200):
       elif op == 2: ra = a.tell(); rb = b.tell()
       elif op == 3:
         k = rnd.randrange(0, 6); ra = a.seek(k); rb = b.seek(k)
+      elif op == 5:
+        ra = a.truncate(); rb = b.truncate()
       else: ra = a.getvalue(); rb = bytes(b.getvalue())
       cases += 1
       if ra != rb: bad.append(('bytesio', op, ra, rb)); break
